@@ -6,7 +6,7 @@
    `sval` of it; both entry points (T::deserialize(value), T::deserialize(&value)).
    The model is of the code with the repairs fixes/D7-deser-by-ref.patch and
    fixes/D14-newtype-struct-deser.patch applied (`Fixed`); `Pinned` is the tree before them. *)
-From TeraV Require Import Model.Value Model.Format Model.Serde Proofs.SerdeProofs Proofs.FormatProofs.
+From TeraV Require Import Model.Value Model.Format Model.Serde Proofs.SerdeProofs Proofs.FormatProofs Proofs.SerdePinned.
 From Coq Require Import Permutation Sorted.
 
 (* converting a value and reading it back into the same type returns the original, through either
@@ -95,7 +95,18 @@ Theorem C19_D14_pinned_newtype_refuted :
                   ser v = ROk x /\ de_entry Pinned Owned t x = ROk w /\ de_entry Pinned ByRef t x = ROk w /\ w <> v.
 Proof. exact D14_pinned_newtype_refuted. Qed.
 
+(* ... and those two are the only ways it fails there: without newtype structs the owned entry point
+   round-trips on the pinned tree, and so does `&Value` unless the type is an Option or an enum at
+   the top *)
+Theorem C19_pinned_roundtrip_outside_D7_D14 : forall t v x,
+  no_newtype t = true -> no_none_like_under_option t = true -> names_ok t = true ->
+  has_type v t -> ser v = ROk x ->
+  de_entry Pinned Owned t x = ROk v
+  /\ ((match t with TOption _ | TEnum _ => false | _ => true end) = true -> de_entry Pinned ByRef t x = ROk v).
+Proof. exact pinned_roundtrip_outside_D7_D14. Qed.
+
 Print Assumptions C19_de_ser_roundtrip.
+Print Assumptions C19_pinned_roundtrip_outside_D7_D14.
 Print Assumptions C19_de_ser_roundtrip_whenever_ser_ok.
 Print Assumptions C19_bad_key_type_refused.
 Print Assumptions C19_print_determined_by_data.
